@@ -292,6 +292,18 @@ func runUnit(w *World, u *unitRun, tmp string, quickT, slowT int, verbose bool) 
 			return
 		}
 	}
+	for k := range u.Fc.CallSites {
+		if !g.sitesSeen["callsite "+k] {
+			u.Err = fmt.Errorf("CONTRACT-ANCHOR-LOST %s: call site %s (callsite clause) not found", u.Unit, k)
+			return
+		}
+	}
+	for _, gh := range u.Fc.Ghosts {
+		if !g.sitesSeen["ghost "+gh.Name+"@"+gh.Site] {
+			u.Err = fmt.Errorf("CONTRACT-ANCHOR-LOST %s: call site %s of ghost %s not found", u.Unit, gh.Site, gh.Name)
+			return
+		}
+	}
 	for _, a := range u.Fc.Asserts {
 		if !g.assertsSeen[a.Name] {
 			u.Err = fmt.Errorf("CONTRACT-ANCHOR-LOST %s: call site %s of assert %s not found", u.Unit, a.Site, a.Name)
